@@ -211,6 +211,25 @@ func vestingObligations(w *World, r *Report, tm *Terms) {
 			usesTotal := share.Any(func(t *Term) bool {
 				return t.Key() == totalAmtKey || (isField(t, "Amount") && t.Args[0].Key() == total.Key())
 			})
+			// the number that is multiplied by the weight is the swept total itself — not the running remainder, of which
+			// the total is only the first value
+			isTotalAmt := func(t *Term) bool {
+				t = uncell(t)
+				return t.Key() == totalAmtKey || (isField(t, "Amount") && t.Args[0].Key() == total.Key())
+			}
+			convSeen, convOK := false, true
+			share.Walk(func(t *Term) bool {
+				if n := mathName(t); t.Op == "call" && (n == "LegacyNewDecFromInt" || n == "Int.ToLegacyDec") && len(t.Args) >= 1 {
+					convSeen = true
+					if !isTotalAmt(t.Args[0]) {
+						convOK = false
+					}
+				}
+				return true
+			})
+			if convSeen && !convOK {
+				usesTotal = false
+			}
 			keyEntry := false
 			if entry != nil {
 				for _, kc := range keyComponents(s.key) {
